@@ -382,6 +382,33 @@ def _ufpca_noisy_fraction_cases(rng: Rng, tier):
                    dk="noisy-fraction", t=Svec(t), X=Smat(X))
 
 
+def _noisy(rng, n, t, amp):
+    sig, _ = curves(rng, n, t, "lowrank", rank=2)
+    noise, _ = curves(rng, n, t, "rough")
+    return [[x + amp * e / 4 for x, e in zip(r1, r2)] for r1, r2 in zip(sig, noise)]
+
+
+def _auto_fraction_cases(rng: Rng, tier):
+    """Structured, present in EVERY run: noisy univariate and multivariate data, both routes, fitted with
+    n_components=None and then with fractions DERIVED FROM THAT DECOMPOSITION — for several k a fraction just
+    below and just above the k-th cumulated share (± 1e-6) and the midpoint to the next share."""
+    reps = 6 if tier == "thorough" else 1
+    for _ in range(reps):
+        for method in ("covariance", "inner-product"):
+            for amp in (Fraction(1, 4), Fraction(1)):
+                n, m = rng.randint(6, 11), rng.randint(7, 12)
+                t = grid(rng, m)
+                yield dict(kind="ufpca", method=method, normalize=False, sel=["all"], auto_fracs=True, dk="auto-fractions",
+                           t=Svec(t), X=Smat(_noisy(rng, n, t, amp)))
+        for method in ("inner-product", "inner-product", "covariance"):
+            n = rng.randint(6, 10)
+            comps = []
+            for _p in range(rng.choice([2, 3])):
+                t = grid(rng, rng.randint(6, 10), uniform=True)
+                comps.append(dict(t=Svec(t), X=Smat(_noisy(rng, n, t, rng.choice([Fraction(1, 2), Fraction(1)])))))
+            yield dict(kind="mfpca", method=method, sel=["all"], auto_fracs=True, comps=comps, dk="auto-fractions")
+
+
 def _ufpca_large_cases(rng: Rng, tier):
     """Many observations (Gram route) / many grid points (covariance route) around fast-path thresholds,
     the other dimension tiny; a few integer components; rough data so that the noise variance is positive."""
@@ -435,6 +462,7 @@ def _mfpca_cases(rng: Rng, tier):
 def gen_cases(rng: Rng, tier):
     yield from _helper_cases(rng, tier)
     yield from _ufpca_cases(rng, tier)
+    yield from _auto_fraction_cases(rng, tier)
     yield from _ufpca_amplitude_cases(rng, tier)
     yield from _ufpca_noisy_fraction_cases(rng, tier)
     yield from _ufpca_large_cases(rng, tier)
@@ -519,6 +547,35 @@ def _fit(case, sel_py):
             est.fit(mfd)
             size = None
     return est, cap.last(size)
+
+
+def _auto_fractions(case, full):
+    """Fits with fractions derived from the cumulated shares of the n_components=None decomposition `full`."""
+    res = []
+    tot = sum(x for x in full if x == x)
+    if not (tot > 0) or any(x != x for x in full):
+        return res
+    cum = np.cumsum(full) / tot
+    ks = [k for k in range(len(cum)) if cum[k] < 1 - 1e-5 and (k == 0 or cum[k] - cum[k - 1] > 1e-5)]
+    ks = ks[:2] + ks[-2:] if len(ks) > 4 else ks
+    ps = []
+    for k in dict.fromkeys(ks):
+        nxt = cum[k + 1] if k + 1 < len(cum) else 1.0
+        ps += [cum[k] - 1e-6, cum[k] + 1e-6, (cum[k] + min(nxt, 1.0)) / 2]
+    for p in ps:
+        p = float(p)
+        if not (0 < p < 1):
+            continue
+        entry = dict(p=p)
+        try:
+            est, call = _fit(case, p)
+            entry["vals"] = [float(x) for x in np.asarray(est.eigenvalues)]
+            if call is not None:
+                entry["raw_vals"], _ = raw_from_call(call)
+        except Exception as e:  # noqa: BLE001
+            entry["error"] = err_class(e)
+        res.append(entry)
+    return res
 
 
 def _mfpca_cov_pairing(est, vals):
@@ -641,6 +698,8 @@ def run_impl(case):
                 out["fresh_vals"] = [float(x) for x in np.asarray(fresh.eigenvalues)]
             except Exception as e:  # noqa: BLE001
                 out["fresh_error"] = err_class(e)
+    if case.get("auto_fracs"):
+        out["auto"] = _auto_fractions(case, out["vals"])
     # the full decomposition, for the prefix / leading clauses
     if case["sel"][0] != "all":
         try:
@@ -677,9 +736,15 @@ def model_lines(case, impl):
         cols = ";".join(_ratvec(c) for c in impl["raw_vecs"]) if (impl["raw_vecs"] and not big) else "-"
         return [f"impl {sel} {_ratvec(impl['raw_vals'])} {cols}"]
     gram = case["method"] == "inner-product"
-    if gram:
-        return [f"evgram {impl['n_obs']} {sel} {_ratvec(impl['raw_vals'])}"]
-    return [f"evcov {sel} {_ratvec(impl['raw_vals'])}"]
+    lines = [f"evgram {impl['n_obs']} {sel} {_ratvec(impl['raw_vals'])}" if gram else f"evcov {sel} {_ratvec(impl['raw_vals'])}"]
+    for a in _auto_modelled(impl):
+        fs = f"frac:{rs(F(a['p']))}"
+        lines.append(f"evgram {impl['n_obs']} {fs} {_ratvec(a['raw_vals'])}" if gram else f"evcov {fs} {_ratvec(a['raw_vals'])}")
+    return lines
+
+
+def _auto_modelled(impl):
+    return [a for a in impl.get("auto", []) if "raw_vals" in a and "vals" in a]
 
 
 def _frac_tie(case, impl):
@@ -719,12 +784,21 @@ def _float_cumratio_exact(vals):
 
 
 def parse_model(case, outs):
-    return dict(out=outs[0])
+    return dict(out=outs[0], more=outs[1:])
 
 
 def compare(case, impl, model):
     if "__crash__" in impl:
         return [f"implementation crashed: {impl['__crash__']} {impl.get('msg')}"]
+    ds = _compare_main(case, impl, model)
+    for a, o in zip(_auto_modelled(impl), model.get("more", [])):
+        sub_case = dict(case, sel=["frac", rs(F(a["p"]))])
+        sub_impl = dict(vals=a["vals"], raw_vals=a["raw_vals"], n_obs=impl.get("n_obs"))
+        ds += [f"fraction {a['p']!r}: " + d for d in _compare_main(sub_case, sub_impl, dict(out=o))]
+    return ds
+
+
+def _compare_main(case, impl, model):
     toks = model["out"].split(" ")
     ds = []
     if toks[0].startswith("error:"):
@@ -842,6 +916,25 @@ def oracle(case, impl):
                     want = int(np.sum(cum < p)) + 1
                     if k != want or any(abs(a - b) > 1e-9 * lam_max for a, b in zip(vals, srt[:k])):
                         bad("fraction", f"fraction {p}: kept {vals[:6]} but the smallest leading set reaching it is {srt[:want][:6]}")
+    # fractions derived from the full decomposition itself: the kept count is the one the cumulated shares ask for,
+    # and the kept values are the leading ones of that decomposition
+    if impl.get("auto") and full is not None and sum(full) > 0:
+        cumf = np.cumsum(full) / sum(full)
+        for a in impl["auto"]:
+            if "error" in a:
+                bad("runs", f"fit with the fraction {a['p']!r} failed with {a['error']}")
+                break
+            if np.abs(cumf - a["p"]).min() <= 1e-9:
+                continue
+            wantf = int(np.sum(cumf < a["p"])) + 1
+            got = a["vals"]
+            if len(got) != wantf:
+                vs.append(dict(clause="fraction_count", entry=entry, causes=[],
+                               msg=f"fraction {a['p']!r}: {len(got)} components kept, but the cumulated shares of the full decomposition {[round(float(c), 7) for c in cumf[:6]]} ask for {wantf}"))
+                break
+            if any(abs(x - y) > 1e-9 * lam_max for x, y in zip(got, full[:wantf])):
+                bad("prefix", f"fraction {a['p']!r}: the kept values {got[:5]} are not the first {wantf} of the full decomposition {full[:5]}")
+                break
     nxt = impl.get("next_vals")
     if nxt is not None and sel[0] == "int":
         k = len(vals)
